@@ -1,6 +1,7 @@
 """C04 - CPR decode with a reference position (airborne and surface)."""
 from __future__ import annotations
 
+from .. import core
 from ..probe import call
 from ..ref import bits, cpr
 from .. import cprgen
@@ -108,8 +109,8 @@ def mkcase(rng, lat, lon, i=None, sfc=None, offs=None):
                 offs.append([rng.choice((-0.999, 0.999, 0.0, rng.uniform(-1, 1))), rng.choice((-0.999, 0.999, 0.0))])
     return {"p": [lat, lon], "i": i, "surface": sfc,
             "tc": rng.choice((5, 6, 7, 8)) if sfc else rng.choice(list(range(9, 19)) + [20, 21, 22]),
-            "mov": rng.randrange(128), "trk": rng.randrange(256), "ss": rng.randrange(4), "alt": rng.getrandbits(12),
-            "tbit": rng.randrange(2), "df": rng.choice((17, 17, 18)), "ca": rng.randrange(8), "addr": rng.getrandbits(24),
+            "mov": rng.randrange(128), "trk": rng.randrange(256), "ss": rng.randrange(4), "alt": rng.fill(12),
+            "tbit": rng.randrange(2), "df": rng.choice((17, 17, 18)), "ca": rng.randrange(8), "addr": rng.fill(24),
             "offs": offs, "lower": rng.random() < 0.1}
 
 
@@ -117,7 +118,7 @@ def cases(ctx):
     rng = ctx.rng
     quick = ctx.tier == "quick"
     import random as _r
-    drng = _r.Random(4242)
+    drng = core.Rng(4242)
     i = 0
     for nl in range(1, 60):
         for sgn in (1, -1):
